@@ -1,11 +1,11 @@
 """C10  Similarity and coupling estimates equal reference statistics.
 
-Bounded-exhaustive enumeration on the real estimators:
-  coupling  every data array (T,N) in {(3,2),(4,2),(3,3)} over {0,1,2} and
-            (5,2) over {0,1}  x  tau_max in {0,1,2}  x  lag modes: compiled
+Bounded-exhaustive enumeration on the real estimators (quick: arrays (3,2),
+(4,2) over {0,1,2} and (5,2) over {0,1}; thorough adds (3,3) over {0,1,2}):
+  coupling  every data array  x  tau_max in {0,1,2}  x  lag modes: compiled
             CouplingAnalysis cross_correlation, mutual_information (gauss,
             binning with 2 and 3 bins), information_transfer (gauss; ity, mit),
-            symmetrize_by_absmax
+            symmetrize_by_absmax of the reported maxima
   purepy    the same arrays: CouplingAnalysisPurePython cross_correlation and
             mutual_information (all / max / sum, only_tri off / on) against its
             own window definition, and agreement with the compiled class on
@@ -14,24 +14,29 @@ Bounded-exhaustive enumeration on the real estimators:
             Tsonis (Pearson), Spearman, partial-correlation and
             mutual-information climate networks
   partial   every array (4,3) and (5,3) over {0,1} (thorough: (4,3) over
-            {0,1,2}): partial correlation with a non-trivial condition
+            {0,1,2} up to column order): partial correlation with a
+            non-trivial condition
   surr      Surrogates.test_pearson_correlation / test_mutual_information on
             all pairs (original, surrogate) of small arrays
   symabs    symmetrize_by_absmax on all small value / lag matrices
   perms     all pairs of permutations of 0..T-1 (tie-free series): compiled
             binned MI = pure-Python MI * log(bins) where bins | T
-  knn       12 fixed data sets (AR(1) families, duplicates, sign flips,
-            permuted columns; T = 20, 40, 60)  x  k in {1,2,5}: k-nearest-
-            neighbour MI / information transfer against brute-force counts
-            with the same injected tie-breaking noise
-  fixed     the same 12 data sets: Gaussian information transfer with
-            past in {1,2}, climate classes, compiled vs pure Python
+  knn       fixed data sets (AR(1) families, duplicates, sign flips, permuted
+            columns; T = 20, 40, 60; 12 in thorough, 4 in quick)  x  k in
+            {1,2,5}: k-nearest-neighbour MI / information transfer against
+            brute-force counts with the same injected tie-breaking noise
+  fixed     the 12 data sets: Gaussian information transfer with past in
+            {1,2}, climate classes, compiled vs pure Python
   meta      affine maps x -> a x + b (dyadic, a > 0) per column and all
             column permutations: invariance / equivariance of every estimate
+
+Where a statistic is undefined (constant window: 0/0; |rho| = 1: infinite
+Gaussian MI; collinear conditions; singular covariance) the entry is excluded
+and counted; definedness is decided in exact rational arithmetic on the small
+arrays.
 """
 import itertools
 import math
-import os
 import warnings
 
 import numpy as np
@@ -435,7 +440,6 @@ def _PP(data, only_tri):
 def _pp_expect(C, tau_max, mode):
     """From the two-sided lag function C[t,i,j] (NaN = undefined) to the
     documented outputs.  Returns array(s) with NaN where not judged."""
-    n = C.shape[1]
     A = np.abs(C)
     if mode == "all":
         return C
@@ -613,15 +617,17 @@ def _ordinal_spearman(cols):
     return _pair_matrix(r, R.pearson)
 
 
-def _partial_matrix(anom, exact):
+def _partial_matrix(anom, exact, exact_src=None):
     """Partial correlation of every pair given all other columns; None when
-    the covariance matrix is singular (statistic undefined)."""
+    the covariance matrix is singular (statistic undefined).  exact_src: the
+    same series in exact arithmetic (decides singularity)."""
     T, N = anom.shape
     cols = [anom[:, i] for i in range(N)]
     if any(R.is_const(c) for c in cols):
         return None
     if exact:
-        if R.exact_cov_singular(anom.tolist()):
+        if R.exact_cov_singular(exact_src if exact_src is not None
+                                else anom.tolist()):
             return None
     else:
         C = np.corrcoef(anom.T)
@@ -686,7 +692,9 @@ def _check_climate(acc, data, time_cycle, exact=True,
         elif name == "spearman":
             want = _pair_matrix(cols, R.spearman)
         elif name == "partial":
-            want = _partial_matrix(src, exact)
+            want = _partial_matrix(
+                src, exact, R.exact_anomaly(data.tolist(), time_cycle)
+                if exact else None)
             if want is None:
                 acc.ex("partial correlation undefined: singular covariance "
                        "matrix", N * (N - 1))
@@ -783,12 +791,16 @@ def _normalise_rows(A):
 
 def fam_surr(case):
     from pyunicorn.timeseries import Surrogates
-    T, N, base_o, code_o, base_s = case
+    T, N, base_o, code_o, base_s, first_row_zero = case
     acc = Acc()
     O = decode((T, N, base_o, code_o)).T.copy()        # [index, time]
     On, oconst = _normalise_rows(O)
     off = ~np.eye(N, dtype=bool)
-    for code_s in range(base_s ** (T * N)):
+    if first_row_zero:
+        codes = [c * base_s ** N for c in range(base_s ** ((T - 1) * N))]
+    else:
+        codes = range(base_s ** (T * N))
+    for code_s in codes:
         S = decode((T, N, base_s, code_s)).T.copy()
         Sn, sconst = _normalise_rows(S)
         # Pearson test matrix of normalised series
@@ -856,7 +868,7 @@ def fam_surr(case):
                     acc.v("Surrogates.test_mutual_information:bound", "", G,
                           ">= 0")
     acc.ex("surrogate test matrices: diagonal not computed by convention",
-           N * base_s ** (T * N))
+           N * len(codes))
     acc.sig.append(O.tolist())
     return acc.result(trivial=all(oconst))
 
@@ -1251,9 +1263,9 @@ def _arrays(T, N, base):
 
 def run(ctx):
     thorough = ctx.tier == "thorough"
-    shapes = [(3, 2, 3), (4, 2, 3)]
+    shapes = [(3, 2, 3), (4, 2, 3), (5, 2, 2)]
     if thorough:
-        shapes += [(5, 2, 2), (3, 3, 3)]
+        shapes += [(3, 3, 3)]
     ctx.rule = (
         "every data array of shape/alphabet %s (T, N, alphabet size) x "
         "tau_max {0,1,2} x lag modes x estimators; a case is non-trivial "
@@ -1269,14 +1281,21 @@ def run(ctx):
     ctx.explore("climate", cases, desc="climate similarity classes")
     pcases = _arrays(4, 3, 2) + _arrays(5, 3, 2)
     if thorough:
-        pcases += _arrays(4, 3, 3)
+        # (4,3) over {0,1,2} up to column order (columns in non-decreasing
+        # lexicographic order); reorderings are the business of `meta`
+        def col(code, i):
+            return [code // 3 ** (t * 3 + i) % 3 for t in range(4)]
+        pcases += [c for c in _arrays(4, 3, 3)
+                   if col(c[3], 0) <= col(c[3], 1) <= col(c[3], 2)]
     ctx.explore("partial", pcases, desc="partial correlation with a "
                 "non-trivial condition set")
-    scases = [(3, 2, 3, c, 2) for c in range(3 ** 6)]
+    # (T, N, alphabet of the original, code, alphabet of the surrogates,
+    #  surrogates restricted to a zero first sample)
+    scases = [(3, 2, 3, c, 2, 0) for c in range(3 ** 6)]
     if thorough:
-        scases = [(3, 2, 3, c, 3) for c in range(3 ** 6)]
-        scases += [(4, 2, 2, c, 2) for c in range(2 ** 8)]
-        scases += [(3, 3, 2, c, 2) for c in range(2 ** 9)]
+        scases += [(3, 2, 3, c, 3, 1) for c in range(3 ** 6)]
+        scases += [(4, 2, 2, c, 2, 0) for c in range(2 ** 8)]
+        scases += [(3, 3, 2, c, 2, 1) for c in range(2 ** 9)]
     ctx.explore("surr", scases, desc="surrogate test matrices, all pairs "
                 "(original, surrogate)")
     sy = [(2, cs, cl) for cs in range(25) for cl in range(9)]
@@ -1298,8 +1317,6 @@ def run(ctx):
     mc = [("small",) + c for c in (_arrays(4, 2, 3) if thorough
                                    else _arrays(3, 2, 3))]
     mc += [("small",) + c for c in _arrays(3, 3, 2)]
-    if thorough:
-        mc += [("small",) + c for c in _arrays(4, 3, 2)]
     mc += [("fixed", i) for i in (range(12) if thorough else (0, 1, 2, 3))]
     ctx.explore("meta", mc, desc="affine invariance and column-permutation "
                 "equivariance")
